@@ -60,9 +60,10 @@ CONFIGS = [
     dict(name="c7", a_ttl=3, cyc=0.5, s_ttl=3, refresh=2.0, init=(0.0, 0.125), reps=0, base=2.0 ** -4, ct=2.0 ** -8, lat=2.0 ** -8),
     dict(name="c8", a_ttl=2, cyc=1.0, s_ttl=2, refresh=1.0, init=(0.0, 1.0), reps=1, base=2.0 ** -2, ct=2.0 ** -8, lat=0.0),
     dict(name="inf", a_ttl=FOREVER, cyc=1.0, s_ttl=FOREVER, refresh=None, init=(0.0, 0.25), reps=2, base=2.0 ** -4, ct=2.0 ** -8, lat=0.0),
-    # infinite TTLs without cyclic offers: after the repetition phase only FindService / its answer bring a late watcher in
-    dict(name="inf0", a_ttl=FOREVER, cyc=0, s_ttl=FOREVER, refresh=None, init=(0.0, 0.125), reps=1, base=2.0 ** -4, ct=2.0 ** -8, lat=0.0),
 ]
+# (a configuration with infinite TTLs and NO cyclic offers was tried and withdrawn: the property bounds convergence by "one TTL
+#  plus one cyclic period" and quantifies over TTLs "longer than the cyclic-offer period" - without a cyclic period it does not
+#  apply; see DESIGN.md section 11)
 RR = (2.0 ** -6, 2.0 ** -4)
 
 
